@@ -4,11 +4,12 @@ package dnsforward
 
 import (
 	"context"
-	"encoding/binary"
 	"fmt"
 	"math/rand"
 	"net"
+	"net/http"
 	"net/netip"
+	"net/url"
 	"os"
 	"path/filepath"
 	"slices"
@@ -132,6 +133,50 @@ func c04aWantEngine(owner *c04aClient) string {
 		return owner.Name
 	}
 	return "none"
+}
+
+// c04aBefore does what the proxy does before it hands a request to the
+// pipeline: it calls the server's pre-request hook with the request's context.
+// A ClientID is carried as the path of a DNS-over-HTTPS request.
+func c04aBefore(s *Server, pctx *proxy.DNSContext, cid string) (err error) {
+	if cid != "" {
+		pctx.Proto = proxy.ProtoHTTPS
+		pctx.HTTPRequest = &http.Request{Method: http.MethodPost, URL: &url.URL{Path: "/dns-query/" + cid}, Header: http.Header{}}
+	}
+
+	return s.HandleBefore(nil, pctx)
+}
+
+// c04aEarlyAnswered pushes n ClientID-bearing requests through the server
+// that are answered before the pipeline gets to the ClientID: the Firefox
+// canary domain and the health-check name (answered at the start of the
+// pipeline), and requests the proxy answers itself between the pre-request
+// hook and the pipeline (ANY with refuse_any, several questions, forbidden
+// private PTR: for these only the pre-request hook runs).
+func c04aEarlyAnswered(rep *verifkit.Report, s *Server, reqID *uint64, n int) {
+	for i := 0; i < n; i++ {
+		m := &dns.Msg{}
+		kind := i % 3
+		switch kind {
+		case 0:
+			m.SetQuestion("use-application-dns.net.", dns.TypeA)
+		case 1:
+			m.SetQuestion("healthcheck.adguardhome.test.", dns.TypeA)
+		default:
+			m.SetQuestion("example.org.", dns.TypeANY)
+		}
+		*reqID++
+		pctx := &proxy.DNSContext{Req: m, Addr: netip.AddrPortFrom(netip.MustParseAddr("198.51.100.7"), 5353), RequestID: *reqID}
+		if err := c04aBefore(s, pctx, fmt.Sprintf("early-%d", i%50)); err != nil {
+			rep.Event("handover_refused_by_handlebefore")
+
+			continue
+		}
+		if kind != 2 {
+			_ = s.handleDNSRequest(nil, pctx)
+		}
+		rep.Event("early_answered_clientid_requests:" + []string{"firefox-canary", "healthcheck-name", "answered-by-proxy-before-pipeline"}[kind])
+	}
 }
 
 func c04aForm(a netip.Addr) string {
@@ -301,7 +346,12 @@ func TestVerifC04Attribution(t *testing.T) {
 	// The engine the previous safe-search request had to be handled by.
 	prevEngine := ""
 	nReg := verifkit.Pick(1500, 20000)
+	// A long history of ClientID-bearing requests that are answered before the
+	// ClientID is consumed precedes the judged requests, and a little more of
+	// it precedes every registry.
+	c04aEarlyAnswered(rep, s, &reqID, verifkit.Pick(3000, 20000))
 	for ri := 0; ri < nReg && rep.ViolationsTotal < 40; ri++ {
+		c04aEarlyAnswered(rep, s, &reqID, 3)
 		c04aRegistry(ctx, rep, rng, s, ql, &cur, &reqID, &prevEngine)
 	}
 
@@ -408,9 +458,14 @@ func c04aRegistry(ctx context.Context, rep *verifkit.Report, rng *rand.Rand, s *
 			if owner != nil {
 				wantName, wantLabel = owner.Name, tier+"-owner"
 			}
+			// Requests with a ClientID arrive as DNS-over-HTTPS requests whose
+			// path carries it (/dns-query/<id>); the ClientID travels from the
+			// proxy's pre-request hook to the pipeline the way it does in the
+			// running server: HandleBefore, then handleDNSRequest with the same
+			// context.  (The other carriers of a ClientID are C16's subject.)
 			proto := proxy.ProtoUDP
 			if cid != "" {
-				proto = []proxy.Proto{proxy.ProtoTLS, proxy.ProtoHTTPS, proxy.ProtoQUIC}[rng.Intn(3)]
+				proto = proxy.ProtoHTTPS
 			}
 			witness := func(extra map[string]any) map[string]any {
 				w := map[string]any{"registry": cs, "dhcp_leases": leaseView,
@@ -468,10 +523,8 @@ func c04aRegistry(ctx context.Context, rep *verifkit.Report, rng *rand.Rand, s *
 				m3.SetQuestion(c04aSearchHost+".", dns.TypeA)
 				*reqID++
 				p3 := &proxy.DNSContext{Proto: proto, Req: m3, Addr: netip.AddrPortFrom(a, 5353), RequestID: *reqID}
-				if cid != "" {
-					var key [8]byte
-					binary.BigEndian.PutUint64(key[:], p3.RequestID)
-					s.clientIDCache.Set(key[:], []byte(cid))
+				if berr := c04aBefore(s, p3, cid); berr != nil {
+					rep.Event("handover_refused_by_handlebefore")
 				}
 				ql.take()
 				herr := s.handleDNSRequest(nil, p3)
@@ -571,10 +624,8 @@ func c04aRegistry(ctx context.Context, rep *verifkit.Report, rng *rand.Rand, s *
 			if !judged {
 				continue
 			}
-			if cid != "" {
-				var key [8]byte
-				binary.BigEndian.PutUint64(key[:], pctx.RequestID)
-				s.clientIDCache.Set(key[:], []byte(cid))
+			if berr := c04aBefore(s, pctx, cid); berr != nil {
+				rep.Event("handover_refused_by_handlebefore")
 			}
 			ql.take()
 			herr := s.handleDNSRequest(nil, pctx)
@@ -590,7 +641,13 @@ func c04aRegistry(ctx context.Context, rep *verifkit.Report, rng *rand.Rand, s *
 			if res != nil {
 				svcName = res.ServiceName
 			}
-			if !blocked || svcName != svcHost || entries[0].ClientID != cid {
+			if blocked && svcName == svcHost && entries[0].ClientID != cid {
+				rep.Violate("attribution:pipeline:clientid-of-the-request-not-the-one-handed-over:"+map[bool]string{true: "lost", false: "other"}[entries[0].ClientID == ""],
+					fmt.Sprintf("request from %s carried ClientID %q through the pre-request hook, the pipeline processed and logged it with ClientID %q", src, cid, entries[0].ClientID),
+					witness(map[string]any{"question": msg.Question[0].Name, "logged_clientid": entries[0].ClientID}))
+				return
+			}
+			if !blocked || svcName != svcHost {
 				rep.Violate("attribution:pipeline:"+form+":want-"+wantLabel+":effective-service-not-blocked",
 					fmt.Sprintf("request from %s (ClientID %q) for www.%s.com: the pipeline logs blocked-by-service=%v (service %q), although the request belongs to %q whose blocked service that is", src, cid, svcHost, blocked, svcName, wantName),
 					witness(map[string]any{"question": msg.Question[0].Name, "logged_result": fmt.Sprintf("%+v", res), "logged_service": svcName,
@@ -608,10 +665,8 @@ func c04aRegistry(ctx context.Context, rep *verifkit.Report, rng *rand.Rand, s *
 				m2.SetQuestion(host+".", dns.TypeA)
 				*reqID++
 				p2 := &proxy.DNSContext{Proto: proto, Req: m2, Addr: netip.AddrPortFrom(a, 5353), RequestID: *reqID}
-				if cid != "" {
-					var key [8]byte
-					binary.BigEndian.PutUint64(key[:], p2.RequestID)
-					s.clientIDCache.Set(key[:], []byte(cid))
+				if berr := c04aBefore(s, p2, cid); berr != nil {
+					rep.Event("handover_refused_by_handlebefore")
 				}
 				ql.take()
 				herr = s.handleDNSRequest(nil, p2)
